@@ -126,10 +126,14 @@ def run(ctx):
         tries[clause] = tries.get(clause, 0) + 1
         if tries[clause] > 12:
             continue    # enough attempts to reproduce this clause
-        again = validate(ctx, [dict(it, id="re")])
-        if again and again[0][1] == clause:
+        how, pre = ctx.reproduce(validate, items, it, clause, same=lambda a, b: a["part"] == b["part"])
+        if how:
             done[clause] = done.get(clause, 0) + 1
-            ctx.violation({k: v for k, v in it.items() if k != "id"}, clause, detail)
+            case = {k: v for k, v in it.items() if k != "id"}
+            if pre:     # fails only behind other builders used earlier in the same process
+                case["after"] = [{k: v for k, v in x.items() if k != "id"} for x in pre]
+                detail = dict(detail or {}, reproduced="only after %d earlier builder histories in the same process" % len(pre))
+            ctx.violation(case, clause, detail)
         else:
             ctx.notes.append("unreproduced failure on %r" % (it.get("text") or it.get("h")))
     ctx.assumptions += ["levels are the documented constants of package parser (LOWEST=1 .. MEMBER=12); an infix operator of level 1 can never be consumed and must be reported as a syntax error",
@@ -143,7 +147,8 @@ def run(ctx):
 
 def replay(ctx, v):
     c = dict(v["case"], id="replay")
-    f = validate(ctx, [c])
+    pre = [dict(x, id="pre%d" % n) for n, x in enumerate(c.pop("after", []))]
+    f = [x for x in validate(ctx, pre + [c]) if x[0].get("id") == "replay"]
     print("replay C05:", [x[1] for x in f])
     if f:
         print("VIOLATION property=C05 replay=(same input)")
